@@ -148,7 +148,10 @@ func cmdCheck(args []string) {
 		if everSeen == nil || everSeen[o.Name] {
 			return false
 		}
-		return strings.HasPrefix(o.Kind, "store.global") || strings.HasPrefix(o.Kind, "escape.global") || strings.HasPrefix(o.Kind, "arg.global")
+		// ... and the frame of a function with an explicit `modifies` clause: a memory array the
+		// function did not touch before has no frame obligation on the unchanged tree; writing to
+		// pre-existing cells of it now is a breach of the clause that was proved
+		return strings.HasPrefix(o.Kind, "store.global") || strings.HasPrefix(o.Kind, "escape.global") || strings.HasPrefix(o.Kind, "arg.global") || o.Kind == "frame"
 	}
 	// a further instance (#k) of a labelled contract clause all of whose instances on the
 	// unchanged tree are in the baseline: the clause is the unit of proof, so a failing new
@@ -160,13 +163,26 @@ func cmdCheck(args []string) {
 		i := strings.LastIndex(o.Name, "#")
 		return i > 0 && baseline[o.Name[:i]]
 	}
+	// obligations that did not exist when the baseline was taken (changed or new code): safety
+	// obligations and labelled clauses are attempted in the quick tier too; a failing one is
+	// reported only when its counterexample replays on the real code
+	isNewCode := func(o *Obl) bool {
+		if everSeen == nil || everSeen[o.Name] {
+			return false
+		}
+		kind := o.Kind
+		if i := strings.Index(kind, ":"); i >= 0 {
+			kind = kind[:i]
+		}
+		return safetyKinds[kind] || o.Labeled
+	}
 	sel := func(o *Obl) bool {
 		if !hasProp(o, pset) {
 			return false
 		}
 		if *tier == "quick" && baseline != nil && !*mkBaseline {
 			// quick tier: the committed baseline obligations, the known findings, and new global-region obligations
-			return baseline[o.Name] || matchKnown(known, *prop, o.Name) != nil || isNewFrame(o) || isNewInstance(o)
+			return baseline[o.Name] || matchKnown(known, *prop, o.Name) != nil || isNewFrame(o) || isNewInstance(o) || isNewCode(o)
 		}
 		return true
 	}
@@ -210,7 +226,7 @@ func cmdCheck(args []string) {
 	retryRes := map[*Obl]*FuncResult{}
 	for _, r := range results {
 		for _, o := range r.Obls {
-			if sel(o) && o.Status != "unsat" && o.Status != "trivial" && o.Status != "sat" && (baseline == nil || baseline[o.Name]) {
+			if sel(o) && o.Status != "unsat" && o.Status != "trivial" && o.Status != "sat" && (baseline == nil || baseline[o.Name] || isNewFrame(o) || isNewInstance(o)) {
 				retry = append(retry, o)
 				retryRes[o] = r
 			}
